@@ -83,6 +83,10 @@ CanonNumber(lit, cri, crf) ==
          ELSE IF ~nf.isFloat /\ (~cri \/ Len(lit) < 16) THEN lit
          ELSE IF nf.d = <<>> THEN <<48>>
          ELSE IF Decidable(nf) THEN EcmaLayout(nf.neg, nf.d, nf.n)
+         \* 0.d1..dk * 10^n: from n = 310 on beyond the largest float64 - saturated;
+         \* up to n = -330 below half the smallest one - zero (and -0 is written 0)
+         ELSE IF nf.n >= 310 THEN EcmaLayout(nf.neg, <<1, 7, 9, 7, 6, 9, 3, 1, 3, 4, 8, 6, 2, 3, 1, 5, 7>>, 309)
+         ELSE IF nf.n <= -330 THEN <<48>>
          ELSE <<63>>
 
 (***************************************************************************)
